@@ -189,7 +189,9 @@ def fd_data():
                             open_system = system if open_kind == "same" else None
                             st, frames, delivered, routed = run_step(mode, S, False, 0, system, open_system, data)
                             n_deliv = len(delivered) + (routed or 0)
-                            if st != S or n_deliv != 1 or (open_kind == "same" and routed != 1) or any(f["stype"] != 0 for f in frames):
+                            # a message with W-bit is a primary of the peer, never the reply an own requester waits for (D40)
+                            want_routed = 1 if (open_kind == "same" and not data[2]) else 0
+                            if st != S or n_deliv != 1 or (routed or 0) != want_routed or any(f["stype"] != 0 for f in frames):
                                 fails.add("selected.delivered-exactly-once", dict(w, open_transaction=open_kind, delivered=len(delivered), queued=routed),
                                           "well-formed data message in SELECTED was not delivered exactly once (queue of the waiting requester, else message_received)")
     by = {}
